@@ -7,7 +7,7 @@ content is fingerprinted so that an in-place mutation is detected rather than si
 """
 import sys, types, re, copy, hashlib, decimal
 
-SMALL = 400
+SMALL = 20000
 
 
 def _size(v, lim=SMALL + 1, depth=0):
